@@ -395,8 +395,22 @@ func (s *Syncer) addPeer(p *Peer) error {
 	}
 
 	s.mu.Lock()
+	defer s.mu.Unlock()
+	if p.Inbound {
+		// allowConnect ran before the handshake; connections that were
+		// handshaking at the same time have all passed it, so the limit is
+		// enforced again at the moment the peer is registered
+		var in int
+		for _, q := range s.peers {
+			if q.Inbound {
+				in++
+			}
+		}
+		if in >= s.config.MaxInboundPeers {
+			return errors.New("too many inbound peers")
+		}
+	}
 	s.peers[p.t.Addr] = p
-	s.mu.Unlock()
 	return nil
 }
 
